@@ -922,6 +922,342 @@ def logit_dynamics(ctx, thorough):
             ctx.fail("logit_range", "action outside the action set", inp, o1.tolist()[:5], None)
 
 
+# ------------------------------------------------------------------ hardening audit: dress / state / aliasing / optional arguments /
+# degenerate sizes.  Every variant call must reproduce the CANONICAL call (float64 / int64 ndarrays, Python scalars, fresh objects).
+def harden(ctx, thorough):
+    import scipy.sparse as sp
+    from quantecon.game_theory import BRD, KMR, SamplingBRD, FictitiousPlay, StochasticFictitiousPlay, LocalInteraction, LogitDynamics, NormalFormGame, Player
+    rng = ctx.rng
+    NPI = [int, np.int64, np.int32, np.intp, np.uint8]
+
+    def same(a, b):
+        a, b = np.asarray(a), np.asarray(b)
+        return a.shape == b.shape and np.array_equal(a, b)
+
+    def mat_dresses(A, tag):
+        A64 = np.array(A, dtype=np.float64)
+        big = np.zeros((2 * A64.shape[0], 2 * A64.shape[1]))
+        big[::2, ::2] = A64
+        out = [("list", [list(r) for r in A]), ("tuple", tuple(tuple(r) for r in A)), ("float32", A64.astype(np.float32)),
+               ("int32", A64.astype(np.int32)), ("int64", A64.astype(np.int64)), ("F-order", np.asfortranarray(A64)),
+               ("non-contiguous view", big[::2, ::2])]
+        for name, _ in out:
+            ctx.count("dress:%s=%s" % (tag, name))
+        return out
+
+    # ---------------- BRD / KMR / SamplingBRD
+    for it in range(45 if thorough else 16):
+        n, N = rng.choice([1, 2, 3, 4]), rng.choice([1, 2, 3, 5, 8])
+        A = gen_payoff(rng, n)
+        cls = rng.choice(["BRD", "KMR", "SamplingBRD"])
+        if cls == "SamplingBRD" and N < 2:
+            N = 2
+        dist = composition(rng, N, n)
+        ts = rng.choice([0, 1, 2, 6, 15])
+        ps = [rng.randrange(N) for _ in range(ts)]
+        eps, k = rng.choice([0.0, 0.25, 0.5, 1.0]), rng.choice([1, 2, 3])
+        us = [rng.choice([0.0, 0.25, 0.5, ONE_M, rng.random()]) for _ in range(ts)]
+        muts = [rng.randrange(n) for _ in range(ts)]
+        samples = [[rng.randrange(n) for _ in range(k)] for _ in range(ts)]
+        inp = {"class": cls, "A": A, "N": N, "init_action_dist": dist, "player_ind_seq": ps, "eps": eps, "k": k, "hardening": True}
+
+        def mk(Av=None, Nv=None, epsv=None, kv=None):
+            Av = np.array(A, dtype=np.float64) if Av is None else Av
+            Nv = N if Nv is None else Nv
+            if cls == "BRD":
+                return BRD(Av, Nv)
+            if cls == "KMR":
+                return KMR(Av, Nv, epsilon=eps if epsv is None else epsv)
+            return SamplingBRD(Av, Nv, k=k if kv is None else kv)
+
+        def rs():
+            return ScriptedRS(ints=ps + muts + [0] * 8, uniforms=us + [0.5] * 8, samples=samples + [[0] * k] * 4)
+
+        okc, ref = call(ctx, inp, lambda: mk().time_series(ts, init_action_dist=np.array(dist), random_state=rs()))
+        if not okc:
+            continue
+        ctx.case(("harden-brd", cls, A, N, dist, ps, eps, k, us, muts, samples), nontrivial=(n >= 2 and ts >= 2))
+        ctx.count("degenerate:%s ts=%d N=%d n=%d" % (cls, ts, N, n) if (ts == 0 or N == 1 or n == 1) else "harden:%s" % cls)
+        if ref.shape != (ts, n):
+            ctx.fail("shape", "time_series does not have shape (ts_length, num_actions)", inp, list(ref.shape), [ts, n])
+        for name, Av in mat_dresses(A, "payoff_matrix"):
+            before = np.array(Av, copy=True)
+            dv = rng.choice([list(dist), tuple(dist), np.array(dist, dtype=np.int32), np.array(dist, dtype=np.float64), np.array(dist + dist)[:n] if False else np.array(dist)])
+            dist_list_before = list(dist)
+            okc, o = call(ctx, dict(inp, dress=name), lambda: mk(Av, rng.choice(NPI)(N), None if cls != "KMR" else rng.choice([float, np.float64])(eps),   # not float32: `u < np.float32(eps)` compares in float32 (NumPy 2 weak scalars)
+                                                                 None if cls != "SamplingBRD" else rng.choice(NPI)(k)).time_series(
+                rng.choice(NPI)(ts), init_action_dist=dv, random_state=rs()))
+            if okc and not same(o, ref):
+                ctx.fail("dress", "time_series with the payoff matrix as %s / NumPy scalars / init_action_dist as %s differs from the canonical call" % (name, type(dv).__name__),
+                         dict(inp, dress=name), np.asarray(o).tolist()[:6], ref.tolist()[:6])
+            if not np.array_equal(before, np.array(Av)) or (isinstance(dv, (list, tuple)) and list(dv) != dist_list_before):
+                ctx.fail("mutation", "the dynamics modified its payoff matrix or a list/tuple init_action_dist", dict(inp, dress=name), None, None)
+        # one object reused; attribute re-assignment; another object alive
+        obj = mk(epsv=0.75, kv=k + 1)
+        other = BRD(gen_payoff(rng, n + 1), N + 1)
+        for step in range(3):
+            other.time_series(3, init_action_dist=np.array([N + 1] + [0] * n), random_state=ScriptedRS(ints=[0] * 8))
+            if cls == "KMR":
+                obj.epsilon = eps
+                ctx.count("seq:reassign epsilon")
+            elif cls == "SamplingBRD":
+                obj.k = k
+                ctx.count("seq:reassign k")
+            else:
+                ctx.count("seq:reuse BRD")
+            okc, o = call(ctx, dict(inp, sequence=step), lambda: obj.time_series(ts, init_action_dist=np.array(dist), random_state=rs()))
+            if okc and not same(o, ref):
+                ctx.fail("stale_state", "a reused dynamics object (attributes re-assigned, another object alive) differs from a fresh one", dict(inp, sequence=step),
+                         np.asarray(o).tolist()[:6], ref.tolist()[:6])
+            if okc:
+                o[...] = -3
+        # optional arguments: tol / tie_breaking omitted vs explicit defaults
+        okc, o = call(ctx, dict(inp, optional="explicit defaults"), lambda: mk().time_series(ts, init_action_dist=np.array(dist), tol=None, tie_breaking="smallest", random_state=rs()))
+        ctx.count("optional:tol=None,tie_breaking='smallest' explicit")
+        if okc and not same(o, ref):
+            ctx.fail("optional_argument", "explicit tol=None / tie_breaking='smallest' differs from omitting them", inp, np.asarray(o).tolist()[:6], ref.tolist()[:6])
+    # tol=0 crossed with near-ties (gap 1e-9 < default tol 1e-8): default treats them as ties (smallest index), tol=0 does not
+    for it in range(24 if thorough else 10):
+        n = rng.choice([2, 3])
+        j = rng.randrange(1, n)
+        A = [[0.0] * n for _ in range(n)]
+        for a in range(n):
+            for b in range(n):
+                A[a][b] = 1.0 + (rng.choice([1e-9, 5e-9]) if a == j else 0.0)
+        N = 2          # one opponent: the payoff-vector gap equals the matrix gap (1e-9 or 5e-9, below the default tol 1e-8)
+        dist = composition(rng, N, n)
+        p = rng.randrange(N)
+        act = [i for i in range(n) for _ in range(dist[i])][p]
+        for tolv, want in ((None, 0), (0, j), (0.0, j), (1e-8, 0)):
+            ctx.count("optional:tol=%r near-tie" % (tolv,))
+            inp = {"class": "BRD", "A": A, "N": N, "init_action_dist": dist, "player_ind_seq": [p], "tol": tolv, "hardening": "near-tie"}
+            kw = {} if tolv is None else {"tol": tolv}
+            okc, o = call(ctx, inp, lambda: BRD(A, N).play(act, np.array(dist, dtype=float), **kw))
+            exp = list(dist)
+            exp[act] -= 1
+            exp[want] += 1
+            ctx.case(("near-tie", A, N, dist, p, tolv), nontrivial=True)
+            if okc and [int(x) for x in o] != exp:
+                ctx.fail("tolerance", "best response with tol=%r on payoffs 1e-9 apart is not the documented one" % (tolv,), inp, [int(x) for x in o], exp)
+        # tie_breaking='random': the revising player must end on SOME best response (up to tol); equal seeds equal results
+        sd = rng.randrange(2 ** 31)
+        okc, o = call(ctx, {"class": "BRD", "A": A, "tie_breaking": "random"}, lambda: BRD(A, N).play(act, np.array(dist, dtype=float), tie_breaking="random", random_state=sd))
+        ctx.count("optional:tie_breaking='random'")
+        if okc:
+            rest = list(dist)
+            rest[act] -= 1
+            got = [int(x) - r for x, r in zip(o, rest)]
+            if sorted(got) != [0] * (n - 1) + [1]:
+                ctx.fail("brd_invariant", "play with random tie-breaking does not add exactly one player", {"class": "BRD", "A": A, "init_action_dist": dist}, [int(x) for x in o], None)
+    # ---------------- FictitiousPlay
+    for it in range(36 if thorough else 14):
+        n0, n1 = rng.choice([1, 2, 3]), rng.choice([2, 3])
+        A, B = gen_payoff(rng, n0, n1), gen_payoff(rng, n1, n0)
+        gain = rng.choice([None, 0.5, 0.25, 0.0, 1.0])
+        ts = rng.choice([1, 2, 4, 9])
+        t_init = rng.choice([0, 0, 3])
+        init = (gen_belief(rng, n0, True), gen_belief(rng, n1, True))
+        inp = {"class": "FictitiousPlay", "A": A, "B": B, "gain": gain, "ts": ts, "t_init": t_init, "init": init, "hardening": True}
+        g = NormalFormGame((Player(np.array(A, dtype=float)), Player(np.array(B, dtype=float))))
+        okc, ref = call(ctx, inp, lambda: FictitiousPlay(g, gain=gain).time_series(ts, init_actions=init, t_init=t_init))
+        if not okc:
+            continue
+        ctx.case(("harden-fp", A, B, gain, ts, t_init, init), nontrivial=(ts >= 2))
+        ctx.count("optional:gain=%r" % (gain,))
+        if gain == 0.0 and any(not np.array_equal(ref[i][-1], ref[i][0]) for i in (0, 1)):
+            ctx.fail("optional_argument", "gain=0.0 (falsy but valid) must leave the beliefs constant", inp, [ref[0][-1].tolist(), ref[1][-1].tolist()], None)
+        dA, dB = mat_dresses(A, "payoff_array(FP)"), mat_dresses(B, "payoff_array(FP)")
+        for (name, Av), (_, Bv) in zip(dA, dB):
+            if name == "tuple":
+                continue
+            snapA = np.array(Av, copy=True)
+            iv = tuple((rng.choice(NPI)(a) if isinstance(a, int) else rng.choice([list, tuple, np.array])(a)) for a in init)
+            gv = NormalFormGame((Player(Av), Player(Bv)))
+            okc, o = call(ctx, dict(inp, dress=name), lambda: FictitiousPlay(gv, gain=None if gain is None else rng.choice([float, np.float64])(gain)).time_series(
+                rng.choice(NPI)(ts), init_actions=iv, t_init=rng.choice(NPI)(t_init)))
+            if okc and any(not same(o[i], ref[i]) for i in (0, 1)):
+                ctx.fail("dress", "FictitiousPlay with payoff arrays as %s / NumPy scalars / init_actions as other containers differs from the canonical call" % name,
+                         dict(inp, dress=name), [o[0][-1].tolist(), o[1][-1].tolist()], [ref[0][-1].tolist(), ref[1][-1].tolist()])
+            if not np.array_equal(snapA, np.array(Av)):
+                ctx.fail("mutation", "FictitiousPlay modified a payoff array", dict(inp, dress=name), None, None)
+        # optional: t_init omitted (when 0) / gain omitted (when None); play(num_reps) vs repeated play(1); caller-supplied out buffer
+        fp = FictitiousPlay(g, gain=gain)
+        if t_init == 0:
+            okc, o = call(ctx, dict(inp, optional="t_init omitted"), lambda: (FictitiousPlay(g) if gain is None else FictitiousPlay(g, gain=gain)).time_series(ts, init_actions=init))
+            ctx.count("optional:t_init/gain omitted")
+            if okc and any(not same(o[i], ref[i]) for i in (0, 1)):
+                ctx.fail("optional_argument", "omitting t_init / gain differs from passing the defaults", inp, None, None)
+        if ts >= 3:
+            okc, whole = call(ctx, dict(inp, call="play"), lambda: fp.play(actions=init, num_reps=ts - 1, t_init=t_init))
+            cur = init
+            good = okc
+            for r in range(ts - 1):
+                okc, cur = call(ctx, dict(inp, call="play(1) repeated"), lambda: fp.play(actions=cur, t_init=t_init + r))
+                good = good and okc
+                if not okc:
+                    break
+            ctx.count("seq:play(num_reps=k) vs k x play(1)")
+            if good and any(not same(cur[i], whole[i]) or not same(whole[i], ref[i][-1]) for i in (0, 1)):
+                ctx.fail("play_mismatch", "play(num_reps=k), k successive play(1) calls and row k of time_series differ", dict(inp, call="play"),
+                         [np.asarray(whole[0]).tolist(), np.asarray(cur[0]).tolist()], ref[0][-1].tolist())
+            buf = (np.full(n0, 7.5), np.full(n1, -3.25))
+            okc, ob = call(ctx, dict(inp, call="play(out=buffer)"), lambda: fp.play(actions=init, num_reps=ts - 1, t_init=t_init, out=buf))
+            ctx.count("buffer:out reused, pre-filled")
+            if okc and (any(ob[i] is not buf[i] for i in (0, 1)) or any(not same(buf[i], ref[i][-1]) for i in (0, 1))):
+                ctx.fail("buffer", "play(out=...) does not return / fill the caller's buffers with the same result", dict(inp, call="play(out=buffer)"), [b.tolist() for b in buf], [ref[0][-1].tolist(), ref[1][-1].tolist()])
+            okc, ob2 = call(ctx, dict(inp, call="play(out=buffer) again"), lambda: fp.play(actions=init, num_reps=1, t_init=t_init, out=buf))
+            if okc and any(not same(buf[i], ref[i][1]) for i in (0, 1)):
+                ctx.fail("buffer", "a reused out buffer gives a different result than a fresh one", inp, [b.tolist() for b in buf], [ref[0][1].tolist(), ref[1][1].tolist()])
+        for i, a in enumerate(init):
+            if not isinstance(a, int) and as_vec(a, 0) != list(a):
+                pass
+        # init_actions omitted: random initial beliefs; invariants only; equal seeds equal histories
+        sd = rng.randrange(2 ** 31)
+        okc, o = call(ctx, dict(inp, optional="init_actions omitted", seed=sd), lambda: (fp.time_series(ts, random_state=sd), fp.time_series(ts, random_state=np.int64(sd))))
+        ctx.count("optional:init_actions omitted")
+        if okc:
+            if any(not same(o[0][i], o[1][i]) for i in (0, 1)):
+                ctx.fail("seed", "equal seeds (Python int / np.int64) gave different histories", dict(inp, seed=sd), None, None)
+            for i in (0, 1):
+                if (o[0][i] < -1e-15).any() or (abs(o[0][i].sum(axis=1) - 1) > 1e-12).any():
+                    ctx.fail("fp_probability_vector", "belief is not a probability vector (random initial beliefs)", dict(inp, seed=sd), o[0][i][-1].tolist(), None)
+    # ---------------- LocalInteraction
+    for it in range(36 if thorough else 14):
+        n, N = rng.choice([1, 2, 3]), rng.choice([1, 2, 3, 5])
+        A = gen_payoff(rng, n)
+        adj = [[rng.choice([0, 0, 1, 2]) for _ in range(N)] for _ in range(N)]
+        prof = [rng.randrange(n) for _ in range(N)]
+        rev = rng.choice(["simultaneous", "asynchronous"])
+        ts = rng.choice([1, 2, 5, 9])
+        seq = [rng.randrange(N) for _ in range(ts)]
+        inp = {"class": "LocalInteraction", "A": A, "adj": adj, "actions": prof, "revision": rev, "player_ind_seq": seq, "ts": ts, "hardening": True}
+        kw = {"player_ind_seq": seq} if rev == "asynchronous" else {}
+        okc, ref = call(ctx, inp, lambda: LocalInteraction(np.array(A, dtype=float), np.array(adj)).time_series(ts, revision=rev, actions=tuple(prof), **kw))
+        if not okc:
+            continue
+        ctx.case(("harden-li", A, adj, prof, rev, seq, ts), nontrivial=(ts >= 2 and N >= 2))
+        a64 = np.array(adj, dtype=np.float64)
+        adjs = [("list", adj), ("int32", a64.astype(np.int32)), ("float64", a64), ("float32", a64.astype(np.float32)), ("csr", sp.csr_matrix(a64)),
+                ("csc", sp.csc_matrix(a64)), ("coo", sp.coo_matrix(a64)), ("F-order", np.asfortranarray(a64))]
+        for (aname, adv), (mname, Av) in zip(adjs, mat_dresses(A, "payoff_matrix(LI)") + [("float64", np.array(A, dtype=float))]):
+            ctx.count("dress:adj_matrix=%s" % aname)
+            snap = adv.toarray().copy() if sp.issparse(adv) else np.array(adv, copy=True)
+            pv = rng.choice([tuple, list, np.array])(prof)
+            kwv = {"player_ind_seq": rng.choice([list, np.array, tuple])(seq)} if rev == "asynchronous" else {}
+            okc, o = call(ctx, dict(inp, dress=aname + "/" + mname), lambda: LocalInteraction(Av, adv).time_series(rng.choice(NPI)(ts), revision=rev, actions=pv, **kwv))
+            if okc and not same(o, ref):
+                ctx.fail("dress", "LocalInteraction with adjacency as %s, payoffs as %s, actions/player_ind_seq in other containers differs from the canonical call" % (aname, mname),
+                         dict(inp, dress=aname + "/" + mname), np.asarray(o).tolist()[:5], ref.tolist()[:5])
+            now = adv.toarray() if sp.issparse(adv) else np.array(adv)
+            if not np.array_equal(snap, now) or list(pv) != prof:
+                ctx.fail("mutation", "LocalInteraction modified its adjacency matrix or the actions it was given", dict(inp, dress=aname), None, None)
+        li = LocalInteraction(np.array(A, dtype=float), np.array(adj))
+        if ts >= 3:
+            if rev == "simultaneous":
+                okc, whole = call(ctx, dict(inp, call="play(num_reps)"), lambda: li.play(actions=tuple(prof), num_reps=ts - 1))
+            else:
+                okc, whole = call(ctx, dict(inp, call="play(seq)"), lambda: li.play(revision=rev, actions=tuple(prof), player_ind_seq=seq[:ts - 1]))
+            cur, good = tuple(prof), okc
+            for r in range(ts - 1):
+                if rev == "simultaneous":
+                    okc, cur = call(ctx, dict(inp, call="play(1) repeated"), lambda: li.play(actions=cur))
+                else:
+                    okc, cur = call(ctx, dict(inp, call="play(1) repeated"), lambda: li.play(revision=rev, actions=cur, player_ind_seq=rng.choice(NPI)(seq[r])))
+                good = good and okc
+                if not okc:
+                    break
+            ctx.count("seq:play(num_reps=k) vs k x play(1)")
+            if good and (list(cur) != [int(x) for x in ref[-1]] or [int(x) for x in whole] != [int(x) for x in ref[-1]]):
+                ctx.fail("play_mismatch", "LocalInteraction.play over k periods, k successive single-period plays and row k of time_series differ",
+                         dict(inp, call="play"), [list(map(int, whole)), list(map(int, cur))], ref[-1].tolist())
+        okc, o = call(ctx, dict(inp, optional="explicit defaults"), lambda: li.time_series(ts, revision=rev, actions=tuple(prof), tol=None, tie_breaking="smallest", **kw))
+        ctx.count("optional:LocalInteraction explicit defaults / revision omitted")
+        if okc and not same(o, ref):
+            ctx.fail("optional_argument", "explicit tol=None / tie_breaking='smallest' differs from omitting them", inp, None, None)
+        if rev == "simultaneous":
+            okc, o = call(ctx, dict(inp, optional="revision omitted"), lambda: li.time_series(ts, actions=tuple(prof)))
+            if okc and not same(o, ref):
+                ctx.fail("optional_argument", "omitting revision differs from revision='simultaneous'", inp, None, None)
+    # ---------------- LogitDynamics
+    for it in range(36 if thorough else 14):
+        ns = [rng.choice([1, 2, 3]), rng.choice([2, 3])]
+        A, B = gen_payoff(rng, ns[0], ns[1]), gen_payoff(rng, ns[1], ns[0])
+        beta = rng.choice([0, 1, 2, 0.5])
+        ts = rng.choice([1, 2, 5, 9])
+        init = [rng.randrange(m) for m in ns]
+        seq = [rng.randrange(2) for _ in range(ts)]
+        us = [rng.choice([0.0, ONE_M, rng.random(), rng.random()]) for _ in range(ts)]
+        inp = {"class": "LogitDynamics", "payoffs": [A, B], "beta": beta, "init": init, "player_ind_seq": seq, "uniforms": [u.hex() for u in us], "hardening": True}
+
+        def game(Av=None, Bv=None):
+            return NormalFormGame((Player(np.array(A, dtype=float) if Av is None else Av), Player(np.array(B, dtype=float) if Bv is None else Bv)))
+
+        def rs(k=None):
+            k = ts if k is None else k
+            return ScriptedRS(ints=seq[:k] + [0] * 8, uniforms=us[:k] + [0.5] * 8)
+
+        okc, ref = call(ctx, inp, lambda: LogitDynamics(game(), beta=float(beta)).time_series(ts, init_actions=tuple(init), random_state=rs()))
+        if not okc:
+            continue
+        ctx.case(("harden-logit", A, B, beta, ts, init, seq, inp["uniforms"]), nontrivial=(ts >= 2))
+        for (name, Av), (_, Bv) in zip(mat_dresses(A, "payoff_array(Logit)"), mat_dresses(B, "payoff_array(Logit)")):
+            if name in ("tuple", "float32"):      # float32 payoffs make exp() run in float32: legitimately different weights
+                continue
+            snapA = np.array(Av, copy=True)
+            bv = rng.choice([float, np.float64])(beta)
+            if isinstance(beta, int):
+                bv = rng.choice([int, np.int64, float])(beta)
+            ctx.count("dress:beta=%s" % type(bv).__name__)
+            okc, o = call(ctx, dict(inp, dress=name), lambda: LogitDynamics(game(Av, Bv), beta=bv).time_series(
+                rng.choice(NPI)(ts), init_actions=rng.choice([tuple, list, np.array])(init), random_state=rs()))
+            if okc and not same(o, ref):
+                ctx.fail("dress", "LogitDynamics with payoffs as %s / beta as %s / NumPy ts_length differs from the canonical call" % (name, type(bv).__name__),
+                         dict(inp, dress=name), np.asarray(o).tolist()[:5], ref.tolist()[:5])
+            if not np.array_equal(snapA, np.array(Av)):
+                ctx.fail("mutation", "LogitDynamics modified a payoff array", dict(inp, dress=name), None, None)
+        ld = LogitDynamics(game(), beta=float(beta))
+        # several objects alive (different games), reuse, play(num_reps=k) vs k x play(1)
+        other = LogitDynamics(NormalFormGame((Player(gen_payoff(rng, 2, 2)), Player(gen_payoff(rng, 2, 2)))), beta=7.0)
+        other.time_series(3, init_actions=(0, 1), random_state=ScriptedRS(ints=[0, 1, 0], uniforms=[0.2, 0.9, 0.4]))
+        okc, o = call(ctx, dict(inp, sequence="reuse"), lambda: (ld.time_series(ts, init_actions=tuple(init), random_state=rs()), ld.time_series(ts, init_actions=tuple(init), random_state=rs())))
+        ctx.count("seq:LogitDynamics reused, other object alive")
+        if okc and (not same(o[0], ref) or not same(o[1], ref)):
+            ctx.fail("stale_state", "a reused LogitDynamics object (another dynamics alive) differs from a fresh one", dict(inp, sequence="reuse"), None, None)
+        if ts >= 3:
+            kk = ts - 1
+            okc, whole = call(ctx, dict(inp, call="play(num_reps)"), lambda: ld.play(init_actions=tuple(init), num_reps=rng.choice(NPI)(kk), random_state=rs(kk)))
+            cur, good = tuple(init), okc
+            for r in range(kk):
+                okc, cur = call(ctx, dict(inp, call="play(1) repeated"), lambda: ld.play(init_actions=cur, player_ind_seq=rng.choice(NPI)(seq[r]), random_state=ScriptedRS(uniforms=[us[r], 0.5])))
+                good = good and okc
+                if not okc:
+                    break
+            ctx.count("seq:play(num_reps=k) vs k x play(1)")
+            if good and ([int(x) for x in cur] != [int(x) for x in ref[kk]] or [int(x) for x in whole] != [int(x) for x in ref[kk]]):
+                ctx.fail("play_mismatch", "LogitDynamics.play(num_reps=k), k successive single plays and row k of time_series differ", dict(inp, call="play"),
+                         [list(map(int, whole)), list(map(int, cur))], ref[kk].tolist())
+        okc, o = call(ctx, dict(inp, optional="beta omitted"), lambda: (LogitDynamics(game()).time_series(ts, init_actions=tuple(init), random_state=rs()),
+                                                                     LogitDynamics(game(), beta=1.0).time_series(ts, init_actions=tuple(init), random_state=rs())))
+        ctx.count("optional:beta omitted (=1.0)")
+        if okc and not same(o[0], o[1]):
+            ctx.fail("optional_argument", "LogitDynamics without beta differs from beta=1.0", inp, None, None)
+    # two LogitDynamics objects on the SAME game: the first must keep its own beta
+    g = NormalFormGame((Player([[4, 0], [3, 2]]), Player([[4, 0], [3, 2]])))
+    ld1 = LogitDynamics(g, beta=0.0)
+    st = [rng.random() for _ in range(30)]
+    sq = [rng.randrange(2) for _ in range(30)]
+    a = ld1.time_series(30, init_actions=(0, 0), random_state=ScriptedRS(ints=sq + [0] * 4, uniforms=st + [0.5] * 4))
+    LogitDynamics(g, beta=50.0)
+    b = ld1.time_series(30, init_actions=(0, 0), random_state=ScriptedRS(ints=sq + [0] * 4, uniforms=st + [0.5] * 4))
+    ctx.case(("logit-shared-game",), nontrivial=True)
+    ctx.count("seq:two LogitDynamics on one game")
+    if not same(a, b):
+        ctx.fail("logit_shared_game", "a LogitDynamics object changes behaviour when another LogitDynamics with a different beta is created on the same game "
+                 "(choice weights are stored on the shared Player objects)",
+                 {"class": "LogitDynamics", "shared_game": True, "payoffs": [[4, 0], [3, 2]], "beta_first": 0.0, "beta_second": 50.0, "uniforms": [u.hex() for u in st], "player_ind_seq": sq},
+                 b.ravel().tolist()[:20], a.ravel().tolist()[:20])
+
+
 FLOAT_AXIOMS = ("FloatAxioms.Prim2SF_valid", "FloatAxioms.SF2Prim_Prim2SF", "FloatAxioms.Prim2SF_SF2Prim", "FloatAxioms.ltb_spec",
                 "FloatAxioms.leb_spec", "FloatAxioms.add_spec", "FloatAxioms.mul_spec", "FloatAxioms.eqb_spec", "FloatAxioms.compare_spec",
                 "ClassicalDedekindReals.sig_forall_dec", "ClassicalDedekindReals.sig_not_dec", "Classical_Prop.classic",
@@ -963,6 +1299,8 @@ def run(ctx):
     lap("LocalInteraction")
     logit_dynamics(ctx, thorough)
     lap("LogitDynamics")
+    harden(ctx, thorough)
+    lap("hardening audit")
 
 
 def replay(data):
